@@ -491,6 +491,27 @@ func checkDirRestored(c *Ctx, rule string) {
 			}
 			return true
 		})
+		// defer func(prev Dir) { e.dir = prev }(e.dir): the parameter holds the saved directory
+		ast.Inspect(fi.Decl.Body, func(m ast.Node) bool {
+			d, ok := m.(*ast.DeferStmt)
+			if !ok {
+				return true
+			}
+			fl, ok := d.Call.Fun.(*ast.FuncLit)
+			if !ok {
+				return true
+			}
+			var ps []*ast.Ident
+			for _, fld := range fl.Type.Params.List {
+				ps = append(ps, fld.Names...)
+			}
+			for i, a := range d.Call.Args {
+				if i < len(ps) && isField(info, a, pMigrate, "Executor", "dir") {
+					saved[info.ObjectOf(ps[i])] = true
+				}
+			}
+			return true
+		})
 		if len(saved) == 0 {
 			return
 		}
